@@ -3289,9 +3289,22 @@ func (p *wat2X64Worker) buildFunc_ins(
 		sp0 := p.fnWasmR0Base - 8*stk.Pop(token.F32) - 8
 		ret0 := p.fnWasmR0Base - 8*stk.Push(token.I64) - 8
 
+		// cvttss2si is a signed conversion: values from 2^63 up are converted after subtracting 2^63, then bit 63 is set
+		labelBig := ".Wa.L.trunc_u.big." + p.genNextId()
+		labelDone := ".Wa.L.trunc_u.done." + p.genNextId()
 		fmt.Fprintf(w, "    # i64.trunc_f32_u\n")
 		fmt.Fprintf(w, "    movss     xmm4, dword ptr [rbp%+d]\n", sp0)
+		fmt.Fprintf(w, "    mov       eax, 0x5F000000 # 2^63 as f32\n")
+		fmt.Fprintf(w, "    movd      xmm5, eax\n")
+		fmt.Fprintf(w, "    comiss    xmm4, xmm5\n")
+		fmt.Fprintf(w, "    jae       %s\n", labelBig)
 		fmt.Fprintf(w, "    cvttss2si rax, xmm4\n")
+		fmt.Fprintf(w, "    jmp       %s\n", labelDone)
+		fmt.Fprintf(w, "%s:\n", labelBig)
+		fmt.Fprintf(w, "    subss     xmm4, xmm5\n")
+		fmt.Fprintf(w, "    cvttss2si rax, xmm4\n")
+		fmt.Fprintf(w, "    btc       rax, 63\n")
+		fmt.Fprintf(w, "%s:\n", labelDone)
 		fmt.Fprintf(w, "    mov       qword ptr [rbp%+d], rax\n", ret0)
 		fmt.Fprintln(w)
 
@@ -3309,9 +3322,22 @@ func (p *wat2X64Worker) buildFunc_ins(
 		sp0 := p.fnWasmR0Base - 8*stk.Pop(token.F64) - 8
 		ret0 := p.fnWasmR0Base - 8*stk.Push(token.I64) - 8
 
+		// cvttsd2si is a signed conversion: values from 2^63 up are converted after subtracting 2^63, then bit 63 is set
+		labelBig := ".Wa.L.trunc_u.big." + p.genNextId()
+		labelDone := ".Wa.L.trunc_u.done." + p.genNextId()
 		fmt.Fprintf(w, "    # i64.trunc_f64_u\n")
 		fmt.Fprintf(w, "    movsd     xmm4, qword ptr [rbp%+d]\n", sp0)
+		fmt.Fprintf(w, "    movabs    rax, 0x43E0000000000000 # 2^63 as f64\n")
+		fmt.Fprintf(w, "    movq      xmm5, rax\n")
+		fmt.Fprintf(w, "    comisd    xmm4, xmm5\n")
+		fmt.Fprintf(w, "    jae       %s\n", labelBig)
 		fmt.Fprintf(w, "    cvttsd2si rax, xmm4\n")
+		fmt.Fprintf(w, "    jmp       %s\n", labelDone)
+		fmt.Fprintf(w, "%s:\n", labelBig)
+		fmt.Fprintf(w, "    subsd     xmm4, xmm5\n")
+		fmt.Fprintf(w, "    cvttsd2si rax, xmm4\n")
+		fmt.Fprintf(w, "    btc       rax, 63\n")
+		fmt.Fprintf(w, "%s:\n", labelDone)
 		fmt.Fprintf(w, "    mov       qword ptr [rbp%+d], rax\n", ret0)
 		fmt.Fprintln(w)
 
